@@ -60,6 +60,8 @@ func main() {
 		runEngine(*out, *seed, *n)
 	case "sm":
 		runSM(*out, *seed, *n)
+	case "rgx":
+		runRGExhaustive(*out, *smLen, *part, *parts)
 	case "potsx":
 		runPotsExhaustive(*out, *part, *parts)
 	case "engx":
